@@ -785,6 +785,124 @@ class DependencyToRuleConverter:
         return rules
 """})
 
+# ---------------------------------------------------------------------------------------------- fourth batch
+variant("mra-early-return-tuple", {MUL: MUL_HEAD + """
+class MultipleRuleApplier(RuleApplier):
+    def __init__(self, rule_appliers: list[RuleApplier]) -> None:
+        self._rule_appliers = tuple(rule_appliers)
+
+    def assert_applies(self, evaluable: EvaluableArchitecture) -> None:
+        if not self._rule_appliers:
+            return
+        error_messages = []
+        for rule_applier in self._rule_appliers:
+            try:
+                rule_applier.assert_applies(evaluable)
+            except AssertionError as e:
+                error_messages.append(e.args[0])
+        if error_messages:
+            raise AssertionError("\\n".join(error_messages))
+"""})
+
+variant("drule-config-dict-new-module", {
+    "src/pytestarch/diagram_extension/rule_generation.py": """from __future__ import annotations
+from pathlib import Path
+from typing import Iterator
+from pytestarch.diagram_extension.dependency_to_rule_converter import DependencyToRuleConverter
+from pytestarch.diagram_extension.diagram_parser import PumlParser
+from pytestarch.diagram_extension.parsed_dependencies import ParsedDependencies
+from pytestarch.query_language.base_language import RuleApplier
+
+
+def qualified(parsed: ParsedDependencies, base: str | None) -> ParsedDependencies:
+    from pytestarch.diagram_extension.diagram_rule import ModulePrefixer
+    return ModulePrefixer.prefix(parsed, base)
+
+
+def rules_from_diagram(path: Path, base: str | None, should_only: bool) -> Iterator[RuleApplier]:
+    parsed = qualified(PumlParser().parse(path), base)
+    yield from DependencyToRuleConverter(should_only).convert(parsed)
+""",
+    DRU: DRU_HEAD + "from pytestarch.diagram_extension.rule_generation import rules_from_diagram\n" + PREFIXER_PLAIN + """
+class DiagramRule(FileRule, BaseModuleSpecifier, RuleApplier):
+    def __init__(self, should_only_rule: bool = True) -> None:
+        self._config = {"file": None, "base": None, "only": should_only_rule}
+
+    def from_file(self, file_path: Path) -> BaseModuleSpecifier:
+        self._config["file"] = file_path
+        return self
+
+    def with_base_module(self, name_relative_to_root: str) -> RuleApplier:
+        self._config["base"] = name_relative_to_root
+        return self
+
+    def base_module_included_in_module_names(self) -> RuleApplier:
+        return self
+
+    def assert_applies(self, evaluable: EvaluableArchitecture) -> None:
+        path = self._config.get("file")
+        if path is None:
+            raise ImproperlyConfigured("A file path pointing to the diagram has to be specified.")
+        rules = list(rules_from_diagram(path, self._config["base"], self._config["only"]))
+        MultipleRuleApplier(rules).assert_applies(evaluable)
+"""})
+
+variant("conv-intermediate-dict", {DCV: CONV_HEAD + """
+class DependencyToRuleConverter:
+    def __init__(self, should_only_rule: bool) -> None:
+        self._should_only_rule = should_only_rule
+
+    def convert(self, dependencies: ParsedDependencies) -> list[RuleApplier]:
+        return self._convert_should_rules(dependencies) + self._convert_should_not_rules(dependencies)
+
+    def _convert_should_rules(self, dependencies: ParsedDependencies) -> list[RuleApplier]:
+        drawn = {importer: list(importees) for importer, importees in dependencies.dependencies.items()}
+        subjects = {importer: Rule().modules_that().are_named(importer) for importer in drawn}
+        verbs = {importer: (s.should_only() if self._should_only_rule else s.should()) for importer, s in subjects.items()}
+        return [verb.import_modules_that().are_named(drawn[importer]) for importer, verb in verbs.items()]
+
+    @classmethod
+    def _convert_should_not_rules(cls, parsed_dependencies: ParsedDependencies) -> list[RuleApplier]:
+        forbidden = {
+            m: parsed_dependencies.all_modules - {m} - parsed_dependencies.dependencies.get(m, set())
+            for m in sorted(parsed_dependencies.all_modules)
+        }
+        return [
+            Rule().modules_that().are_named(m).should_not().import_modules_that().are_named(sorted(targets))
+            for m, targets in forbidden.items()
+            if targets
+        ]
+"""})
+
+variant("conv-keyed-lookup", {DCV: CONV_HEAD + """
+class DependencyToRuleConverter:
+    def __init__(self, should_only_rule: bool) -> None:
+        self._should_only_rule = should_only_rule
+
+    def convert(self, dependencies: ParsedDependencies) -> list[RuleApplier]:
+        return self._convert_should_rules(dependencies) + self._convert_should_not_rules(dependencies)
+
+    def _convert_should_rules(self, dependencies: ParsedDependencies) -> list[RuleApplier]:
+        subjects = {importer: Rule().modules_that().are_named(importer) for importer in dependencies.dependencies}
+        rules = []
+        for importer in subjects:
+            verb = subjects[importer].should_only() if self._should_only_rule else subjects[importer].should()
+            rules.append(verb.import_modules_that().are_named(list(dependencies.dependencies[importer])))
+        return rules
+
+    @classmethod
+    def _convert_should_not_rules(cls, parsed_dependencies: ParsedDependencies) -> list[RuleApplier]:
+        forbidden = {}
+        for m in parsed_dependencies.all_modules:
+            forbidden[m] = parsed_dependencies.all_modules - {m} - parsed_dependencies.dependencies.get(m, set())
+        rules = []
+        for m in sorted(forbidden):
+            if not forbidden[m]:
+                continue
+            rules.append(Rule().modules_that().are_named(m).should_not().import_modules_that().are_named(sorted(forbidden.get(m))))
+        return rules
+"""})
+
 def main() -> int:
     here = Path(__file__).resolve().parents[1]
     sys.path.insert(0, str(here))
